@@ -33,6 +33,13 @@ REGISTRY = dict(
 
 STOP_SIG = "callback-stop-loses-transition-then-stale-last-obs"
 
+COV_TARGETS = {
+    "stable_baselines3/common/on_policy_algorithm.py": ["OnPolicyAlgorithm.collect_rollouts", "OnPolicyAlgorithm.learn"],
+    "stable_baselines3/common/buffers.py": ["RolloutBuffer.add", "RolloutBuffer.reset", "RolloutBuffer.compute_returns_and_advantage", "DictRolloutBuffer.add", "DictRolloutBuffer.reset"],
+    "stable_baselines3/common/policies.py": ["ActorCriticPolicy.forward", "ActorCriticPolicy.predict_values", "ActorCriticPolicy.extract_features",
+                                             "ActorCriticPolicy._get_action_dist_from_latent", "BasePolicy.unscale_action"],
+}
+
 HEADER = """From Coq Require Import List ZArith QArith Bool.
 From SB3V Require Import Model.Script Model.OnPolicyCollect Model.Pipeline.
 Import ListNotations.
@@ -367,7 +374,17 @@ def run_impl(case):
 
 
 def _worker(case):
+    from harness import cov_collect as branchcov
+
     try:
+        if branchcov.enabled():
+            branchcov.start(list(COV_TARGETS))
+            try:
+                res = run_impl(case)
+            finally:
+                cov = branchcov.stop()
+            res["cov"] = cov
+            return res
         return run_impl(case)
     except Exception:  # noqa: BLE001
         import traceback
@@ -849,6 +866,11 @@ def main():
         "VecNormalize runs: the reward/observation the algorithm is handed is taken from a recording wrapper around VecNormalize (its statistics are C15's subject)",
         "a learn() stopped by a callback is not exercised (C13)",
     ]
+    from harness import cov_collect as branchcov
+
+    if branchcov.enabled():
+        executed = {tuple(x) for im in impls for x in (im.get("cov") or [])}
+        chk.notes["branchcov"] = {"targets": {k: v for k, v in COV_TARGETS.items()}, "never_executed": branchcov.report(COV_TARGETS, executed)}
     return chk.finish()
 
 
